@@ -362,6 +362,13 @@ theorem C07_facts :
     Facts.missing = [] := by
   refine ⟨by decide, by decide, by decide, by decide, by decide⟩
 
+/-- the fact `second` (the second connection of a history) relies on: on the server side
+`c.peerCertificates` / `c.verifiedChains` are assigned by `processCertsFromClient` only, which is
+called from `doFullHandshake` and `doResumeHandshake` only — `checkForResumption` writes nothing
+into the connection, so a declined resumption leaves it fresh (both stacks). -/
+theorem C07_facts_auth_state : tlcpAuthStateOK = true ∧ dtlcpAuthStateOK = true := by
+  refine ⟨by decide, by decide⟩
+
 theorem stack_tables {t : Tables} (h : IsStack t) : t = docTables true true true .clientOrServer := by
   rcases h with h | h
   · rw [C07_facts.1] at h; exact (Option.some.inj h).symm
@@ -602,6 +609,106 @@ example : history (docTables true true true .clientOrServer) .requireAndVerifyCl
     { ecdhe := false, certMsg := true, certs := [⟨true, true, true, .sm2⟩], parseOK := true,
       kxOK := true, cv := some ⟨true, true⟩, finishedOK := true } [⟨true, true, true, .sm2⟩] true true true
     = .resumedDone 1 true := by decide
+
+/-! ### what the second connection reports: declined resumptions -/
+
+theorem second_of_notResumed (t : Tables) (p1 p2 : Policy) (b1 b2 : Behaviour) (now : List Cert) (offer mech : Bool)
+    (h : history t p1 p2 b1 now offer mech b2.finishedOK = .notResumed) :
+    second t p1 p2 b1 now offer mech b2 = reportFull (full t p2 b2) := by
+  unfold second; rw [h]
+
+theorem second_resumed_false (t : Tables) (p1 p2 : Policy) (b1 b2 : Behaviour) (now : List Cert) (offer mech : Bool)
+    (h : (second t p1 p2 b1 now offer mech b2).resumed = false) :
+    history t p1 p2 b1 now offer mech b2.finishedOK = .notResumed := by
+  unfold second at h
+  cases hh : history t p1 p2 b1 now offer mech b2.finishedOK with
+  | notResumed => rfl
+  | resumedDone n ch => rw [hh] at h; simp at h
+  | resumedFailed s => rw [hh] at h; simp at h
+
+/-- **A resumption that cannot happen for reasons outside client authentication is declined** — the
+session's suite is no longer offered by the ClientHello or no longer supported by the server, the
+version differs (`mech = false`) — whatever the session records and whatever the policies are
+(any tables). -/
+theorem C07_mech_failure_declines (t : Tables) (p1 p2 : Policy) (b1 : Behaviour) (now : List Cert) (offer fin : Bool) :
+    history t p1 p2 b1 now offer false fin = .notResumed := by
+  unfold history resume checkForResumption
+  simp
+
+/-- **A connection that is not resumed reports only what ITS client presented**, for every history:
+whatever the first connection was (`b1` under `p1`, completed or not), whatever session id the
+second ClientHello offers and for whichever reason the resumption did not happen (nothing offered,
+unknown id, the policy gate, suite no longer offered / supported), the second connection's
+verified chains are non-empty only if ITS policy verifies, ITS client presented a certificate and
+every certificate relied on passed the validation now — and they are that client's chains; after
+completion non-empty peer certificates are that client's and its proof of possession was checked;
+a client that presented nothing has no verified chains and, after completion, no peer
+certificates.  Nothing of the session `checkForResumption` looked at survives on the connection. -/
+theorem C07_unresumed_reports_this_client (t : Tables) (ht : IsStack t) (p1 p2 : Policy) (b1 b2 : Behaviour)
+    (now : List Cert) (offer mech : Bool)
+    (hr : (second t p1 p2 b1 now offer mech b2).resumed = false) :
+    ((second t p1 p2 b1 now offer mech b2).chains = true →
+        p2.verifies = true ∧ b2.present = true ∧ b2.relied.all (codeValid t.usages p2) = true ∧
+        (second t p1 p2 b1 now offer mech b2).chainOwner = .thisClient) ∧
+    ((second t p1 p2 b1 now offer mech b2).completed = true → (second t p1 p2 b1 now offer mech b2).peers ≠ 0 →
+        b2.pop = true ∧ (second t p1 p2 b1 now offer mech b2).peerOwner = .thisClient) ∧
+    (b2.present = false →
+        (second t p1 p2 b1 now offer mech b2).chains = false ∧
+        ((second t p1 p2 b1 now offer mech b2).completed = true → (second t p1 p2 b1 now offer mech b2).peers = 0)) := by
+  rw [second_of_notResumed t p1 p2 b1 b2 now offer mech (second_resumed_false t p1 p2 b1 b2 now offer mech hr)]
+  refine ⟨?_, ?_, ?_⟩
+  · intro hc
+    have hc' : (full t p2 b2).chains = true := hc
+    obtain ⟨h1, h2, h3⟩ := C07_chains_mean_verified t ht p2 b2 hc'
+    exact ⟨h1, h2, h3, by simp [reportFull, hc']⟩
+  · intro hc hp
+    have hc' : (full t p2 b2).completed = true := hc
+    have hp' : (full t p2 b2).peerCerts ≠ 0 := hp
+    refine ⟨(C07_peer_certs_mean_pop t ht p2 b2 hc' hp').2.1, ?_⟩
+    simp [reportFull, hp']
+  · intro hn
+    constructor
+    · cases hch : (full t p2 b2).chains with
+      | false => simp [reportFull, hch]
+      | true => have := (C07_chains_mean_verified t ht p2 b2 hch).2.1; rw [hn] at this; cases this
+    · intro hc
+      have hc' : (full t p2 b2).completed = true := hc
+      have hlen : (full t p2 b2).peerCerts = b2.sent.length := by
+        have := (full_report true true true .clientOrServer p2 b2 (by rw [← stack_tables ht]; exact hc')).2.2
+        rw [← stack_tables ht] at this; exact this
+      have hs : b2.sent = [] := by
+        simpa [Behaviour.present] using hn
+      simp [reportFull, hlen, hs]
+
+/-- a resumed connection never claims that its certificates are those of the client now
+connected: they are the session's (any tables) -/
+theorem C07_resumed_reports_the_session (t : Tables) (p1 p2 : Policy) (b1 b2 : Behaviour)
+    (now : List Cert) (offer mech : Bool)
+    (hr : (second t p1 p2 b1 now offer mech b2).resumed = true) :
+    (second t p1 p2 b1 now offer mech b2).chainOwner ≠ .thisClient ∧
+    (second t p1 p2 b1 now offer mech b2).peerOwner ≠ .thisClient := by
+  unfold second at hr ⊢
+  cases hh : history t p1 p2 b1 now offer mech b2.finishedOK with
+  | notResumed => rw [hh] at hr; simp [reportFull] at hr
+  | resumedDone n ch => cases ch <;> cases hn : (n == 0) <;> simp [hn]
+  | resumedFailed s => simp
+
+/-- non-vacuity, and the history of the seeded class: a certificate holder's session (ECC), then a
+ClientHello that offers its id but not its suite and a client that presents an empty list under
+`VerifyClientCertIfGiven`: declined, completes, no peer certificates, no verified chains -/
+example :
+    let t := docTables true true true .clientOrServer
+    let holder : Behaviour := { ecdhe := false, certMsg := true, certs := [⟨true, true, true, .sm2⟩, ⟨true, true, true, .sm2⟩],
+                                parseOK := true, kxOK := true, cv := some ⟨true, true⟩, finishedOK := true }
+    let nobody : Behaviour := { ecdhe := false, certMsg := true, certs := [], parseOK := true, kxOK := true, cv := none, finishedOK := true }
+    let now : List Cert := [⟨true, true, true, .sm2⟩, ⟨true, true, true, .sm2⟩]
+    second t .verifyClientCertIfGiven .verifyClientCertIfGiven holder now true false nobody =
+      { completed := true, resumed := false, peers := 0, chains := false, peerOwner := .nobody, chainOwner := .nobody,
+        stage := .done, certReq := some true } ∧
+    -- the same ClientHello with the suite still on offer resumes, and reports the SESSION's certificates
+    second t .verifyClientCertIfGiven .verifyClientCertIfGiven holder now true true nobody =
+      { completed := true, resumed := true, peers := 2, chains := true, peerOwner := .session, chainOwner := .session,
+        stage := .done, certReq := none } := by decide
 
 /-! ### every certificate the server relies on is judged on its own; foreign keys -/
 
